@@ -44,6 +44,10 @@ def run(ctx):
         futs = [ex.submit(j) for j in jobs]
         res = [f.result() for f in futs]
     binp = res[1 + len(sets)]
+    if not ctx.quick:       # vacuity guard: the actions the properties speak about were taken
+        for act in ("Next", "Tick"):
+            if ctx.cov["actions"].get(act, 0) == 0:
+                raise vf.Infra("model-checking coverage of action %s is 0" % act)
     if ctx.replay:
         cases = [ln for ln in vf.read_lines(ctx.replay) if '"kind"' in ln]
         if not cases:
@@ -76,7 +80,7 @@ def run(ctx):
             samples.append(r)
     ctx.cov["distinct_nontrivial"] = nt
     ctx.cov["rule"] = ("records = explicit Fisher-Yates calls (all index sequences of length <= 4/5, 32-bit boundary indices, surplus indices), "
-                       "numeric sequences and shuffles per length (quick: 0..34 and boundary lengths to 1100; thorough: every length 0..1100) with their oracle tables, "
+                       "numeric sequences and shuffles per length (quick: 0..26 and boundary lengths to 1100; thorough: every length 0..1100) with their oracle tables, "
                        "rotateCores calls, and one Slot record per (parameter set, epoch entropy, slot); non-trivial = inputs of length >= 2 and all Slot records")
     ctx.cov["samples"] = samples
     vf.validate_trace(ctx, "Shuffle_Trace", shards, what="shuffle/assignment differs from the specification", timeout=1700, par=6 if ctx.quick else 12)
